@@ -211,8 +211,13 @@ def check_case(case, ctx):
     if bad:
         ctx.violation('greedy-equals-collapse', f'{K}/greedy_decode_ctc/{"count" if "outputs for" in bad else "text"}',
                       f'greedy_decode_ctc, batch of {len(paths)} lines, style {style}: {bad}')
-    if not torch.equal(t, before):
-        ctx.violation('greedy-equals-collapse', f'{K}/greedy_decode_ctc/modifies-input', 'the score tensor passed in was modified')
+    # the caller keeps using its tensor (the engine returns it as the line logits): decoding the same tensor object again gives the same text
+    again = greedy_decode_ctc(t, chars + ['​'])
+    ctx.executed()
+    if not bad and list(again) != list(got):
+        ctx.violation('greedy-equals-collapse', f'{K}/greedy_decode_ctc/second-call-on-the-same-tensor-differs',
+                      f'greedy_decode_ctc, batch of {len(paths)} lines, style {style}: first call {list(got)[:4]}, second call on the same tensor '
+                      f'{list(again)[:4]} (tensor modified: {not torch.equal(t, before)})')
 
     if style == 'huge':
         ctx.tag('huge-scores')
